@@ -27,7 +27,7 @@ func init() {
 	vx.Register(&vx.Prop{
 		ID:    "C17",
 		Level: "exploration",
-		Rule: "all 2^32 semicircle values for Latitude and for Longitude (validity, Semicircles, exact Degrees by integer arithmetic, NaN iff invalid, degree-constructor round trip) and all 2^32 FIT second counts (encode(decode(x))=x, Unix()=631065600+x, zero nanoseconds, IsBaseTime iff x=0); printed form on a stride plus boundary neighbourhoods (quick) or every value (thorough). Through the decoder: position_lat / position_long / timestamp of record messages with the values k*2^16 and k*2^16+0xFFFF for every k and the neighbourhoods of the range ends, both byte orders, must decode to exactly what the constructors / conversion give. " +
+		Rule: "all 2^32 semicircle values for Latitude and for Longitude (validity, Semicircles, exact Degrees by integer arithmetic, NaN iff invalid, degree-constructor round trip) and all 2^32 FIT second counts (encode(decode(x))=x, Unix()=631065600+x, zero nanoseconds, IsBaseTime iff x=0); printed form on a stride plus boundary neighbourhoods and the neighbourhood of every whole and half degree (quick) or every value (thorough). Through the decoder: position_lat / position_long / timestamp of record messages with the values k*2^16 and k*2^16+0xFFFF for every k and the neighbourhoods of the range ends, both byte orders, must decode to exactly what the constructors / conversion give. " +
 			"distinct = distinct outcome classes (type, validity, round-trip delta, sign, printed-error bucket)",
 		Assumptions: []string{"±90° is taken as legal for latitude (the statement says invalid when *outside* ±90°); the +90° case is the listed finding K5"},
 		Run:         runC17,
@@ -207,6 +207,16 @@ func runC17(w *vx.W) {
 				return true
 			}
 		}
+		// within 12 semicircles (about a millionth of a degree) of a whole or half degree: where the printed fraction
+		// rounds up into the next unit
+		q := s * 360 // half-degrees in units of 2^31
+		r := q % (1 << 31)
+		if r < 0 {
+			r += 1 << 31
+		}
+		if r <= 12*360 || r >= 1<<31-12*360 {
+			return true
+		}
 		return false
 	}
 	const block = 1 << 20
@@ -303,7 +313,7 @@ func runC17(w *vx.W) {
 		w.Sample(map[string]interface{}{"seconds": 1000000000, "decoded": fit.VerifDecodeDateTime(1000000000).String()})
 	}
 	if !thorough {
-		w.Note("printed form checked for s%257==0 and within 1024 of 0, ±2^30, ±2^31 and the sentinel (every value in thorough)")
+		w.Note("printed form checked for s%257==0, within 1024 of 0, ±2^30, ±2^31 and the sentinel, and within 12 semicircles of every whole and half degree (every value in thorough)")
 	}
 }
 
